@@ -166,7 +166,7 @@ def run(tier, seed, started):
     c = res.counters
     need = ['kind:before-hist-batch', 'kind:before-utxo-batch']
     if [k for k in need if not c.get(k)] or c.get('backup_jobs', 0) <= c.get('scenarios', 0):
-        raise common.Broken(f'vacuous C05 run: {c}')
+        common.vacuous(PROP, res, f'vacuous C05 run: {c}')
     coverage = {
         'evaluations': c['crash_points_x_continuations'],
         'distinct_nontrivial': len(res.sets.get('kinds', ())),
